@@ -156,7 +156,12 @@ def full_label(d, s):
     return (d.accept[s], d.accept2[s])
 
 
-def policy_equiv(pa, pb):
+def allow_masked_label(d, s):
+    """permission word, and the audit/quiet word restricted to permissions that are granted in that state"""
+    return (d.accept[s], d.accept2[s] & d.accept[s])
+
+
+def policy_equiv(pa, pb, label=None):
     """two compiled single-profile policies mean the same: xmatch language, every policy DFA with full
     permission words, and all other fields. -> (None | reason, states, transitions)"""
     st = tr = 0
@@ -169,7 +174,7 @@ def policy_equiv(pa, pb):
     if len(pa.dfas) != len(pb.dfas):
         return 'number of policy DFAs differs (%d vs %d)' % (len(pa.dfas), len(pb.dfas)), st, tr
     for da, db in zip(pa.dfas, pb.dfas):
-        cex, s, t = equiv(da, db, full_label); st += s; tr += t
+        cex, s, t = equiv(da, db, label or full_label); st += s; tr += t
         if cex is not None:
             return 'policy DFA differs on input %r' % cex, st, tr
     fa = [f for f in pa.fields if f[0] not in ('aadfa',)]
